@@ -59,6 +59,7 @@ static void install_crash_reporting() {
 }
 
 static void c05_set_now(const std::string& s) { g_now = s; }
+static void c05_child_setup(bool quick) { g_report_crash = true; alarm(quick ? 120 : 1500); }
 static std::string H(ll v) { return vp::hex_ll(v); }
 // append ' ' + hex(v) to a char buffer (the ops lines are the bulk of the output)
 static inline char* put_hex(char* w, ll v) {
@@ -156,7 +157,17 @@ struct FieldT : IField {
     ull P, K;
     FieldT(ull p, ull k, int c, ull fc, ull gc) : P(p), K(k) {
         if (c == 0) Fp.reset(new Dom((UTT)p, (UTT)k));
-        else {
+        else if (c == 3) {
+            // modulus found by Poly1FactorDom::ixe_irreducible2 (Rabin's test), then the user-modulus constructor
+            GFqDom<TT> Zp((UTT)p, (UTT)1);
+            typedef Poly1FactorDom<GFqDom<TT>, Dense> PolDom;
+            PolDom Pdom(Zp);
+            typename PolDom::Element Fx;
+            Pdom.ixe_irreducible2(Fx, Degree((int64_t)k));
+            std::vector<int64_t> mod(k + 1, 0);
+            for (size_t i = 0; i < Fx.size() && i <= k; ++i) { int64_t v; Zp.convert(v, Fx[i]); mod[i] = v; }
+            Fp.reset(new Dom((UTT)p, (UTT)k, mod));
+        } else {
             std::vector<int64_t> mod(k + 1, 0);
             { ull x = fc; for (size_t i = 0; i <= k; ++i) { mod[i] = (int64_t)(x % p); x /= p; } }
             if (c == 1) Fp.reset(new Dom((UTT)p, (UTT)k, mod));
@@ -485,6 +496,23 @@ static void gen_field_cases(const FS& f, bool quick, vp::Rng& rng, bool arrays, 
             if (sz == 0) break;
         }
     }
+    {   // array-by-scalar forms with the scalar running explicitly over the code values 0, 1 (the generator), 2, one = q-1, mOne
+        std::vector<ll> sg = {0, 1, 2, q - 1, mo, q - 2, mo + 1 < q ? mo + 1 : 1};
+        for (const char* opc : {"mulVS", "divVS", "addVS", "subVS", "axpyVV", "axpyVS", "axpyinV", "axmyVV", "axmyVS", "maxpyinV"}) {
+            std::string op(opc);
+            for (ll s : sg) {
+                if (s < 0 || s >= q || (op == "divVS" && s == 0)) continue;
+                for (ll s2 : {(ll)0, q - 1, mo}) {
+                    if (s2 != 0 && op != "axpyVS" && op != "axmyVS") continue;
+                    size_t sz = 5;
+                    std::vector<ll> X(sz), Y(sz), R0(sz);
+                    ll fixed[5] = {0, 1, q - 1, mo, 2 % q};
+                    for (size_t i = 0; i < sz; ++i) { X[i] = fixed[i]; Y[i] = pick(false); R0[i] = fixed[(i + 2) % 5]; }
+                    line_arr(f, op, sz, s, s2, X, Y, R0);
+                }
+            }
+        }
+    }
     std::vector<size_t> dsz = {0, 1, 2, 3, 7};
     if (!quick) { dsz.push_back(64); dsz.push_back(257); }
     for (size_t sz : dsz) for (int rep = 0; rep < 2; ++rep) {
@@ -523,6 +551,11 @@ static void generate(const std::string& tier, uint64_t seed) {
     fields.push_back(FS{0x40, 11, 3, 0, 0, 0});
     fields.push_back(FS{0x40, 2, 8, 1, 0x11b, 0});        // 1 + x + x^3 + x^4 + x^8  (GF256 of the test)
     fields.push_back(FS{0x40, 7, 3, 2, 3 + 343, 5 + 3 * 7 + 4 * 49});   // 3 + x^3, generator 5 + 3x + 4x^2 (GF343)
+    fields.push_back(FS{0x20, 3, 8, 0, 0, 0});            // degrees divisible by a square: 4, 8, 9
+    // moduli chosen by ixe_irreducible2 (C = 3), in particular degrees 4, 8, 9
+    for (FS g : std::vector<FS>{{0x20, 3, 4, 3, 0, 0}, {0x40, 5, 4, 3, 0, 0}, {0x20, 7, 4, 3, 0, 0}, {0x40, 2, 8, 3, 0, 0}, {0x20, 2, 9, 3, 0, 0},
+                                {0x20, 2, 4, 3, 0, 0}, {0x40, 3, 2, 3, 0, 0}, {0x20, 2, 6, 3, 0, 0}, {0x20, 3, 3, 3, 0, 0}}) fields.push_back(g);
+    if (!quick) { fields.push_back(FS{0x20, 3, 9, 0, 0, 0}); fields.push_back(FS{0x40, 3, 9, 3, 0, 0}); fields.push_back(FS{0x40, 3, 8, 3, 0, 0}); fields.push_back(FS{0x40, 5, 8, 0, 0, 0}); }
     if (!quick) {
         fields.push_back(FS{0x40, 2, 16, 0, 0, 0});
         fields.push_back(FS{0x40, 2, 18, 0, 0, 0});
@@ -577,13 +610,7 @@ static void generate(const std::string& tier, uint64_t seed) {
         ++idx;
     }
     fflush(stdout);
-    {
-        pid_t pid = fork();
-        if (pid == 0) { g_report_crash = true; alarm(quick ? 300 : 3000); gen_ext_cases(quick, rng); fflush(stdout); _exit(0); }
-        int st = 0;
-        waitpid(pid, &st, 0);
-        if (!(WIFEXITED(st) && (WEXITSTATUS(st) == 0 || WEXITSTATUS(st) == 77 || WEXITSTATUS(st) == 78))) fputs("ext 0 0 0 0 = CRASH\n", stdout);
-    }
+    gen_ext_cases(quick, rng);
 }
 
 // ------------------------------------------------------------------------------------------------
